@@ -52,7 +52,16 @@ const (
 	// ECtxAware: like ESentinel, but when the run's own context is already done at that moment the returned error
 	// also wraps ctx.Err() (a callback that notices the cancellation and reports it as its failure).
 	ECtxAware = NumErrKinds + 1
+	// ETemporary: the error implements Temporary() bool { return true } (a "transient" error as net errors do)
+	ETemporary = NumErrKinds + 2
 )
+
+// TempErr is a transient-looking error.
+type TempErr struct{ ID string }
+
+func (e *TempErr) Error() string   { return "temporary failure " + e.ID }
+func (e *TempErr) Temporary() bool { return true }
+func (e *TempErr) Timeout() bool   { return false }
 
 // CustomErr is a pointer-receiver error type carrying a payload.
 type CustomErr struct{ ID string }
@@ -79,8 +88,9 @@ type Conn struct {
 
 // FlowSpec describes a flyt.Flow: start node and the ordered Connect calls.
 type FlowSpec struct {
-	Start int    `json:"start"`
-	Conns []Conn `json:"conns"`
+	Start   int    `json:"start"`
+	Conns   []Conn `json:"conns"`
+	Retries int    `json:"retries,omitempty"` // > 1: a retry budget configured on the flow's own BaseNode (a flow used as a node is retried like a node)
 }
 
 // NodeSpec describes one node object.
@@ -306,6 +316,9 @@ func (x *Exec) mkErr(kind int, id string) error {
 	case EWrapped:
 		sentinel = errors.New("sentinel " + id)
 		ret = fmt.Errorf("callback context for %s: %w", id, sentinel)
+	case ETemporary:
+		sentinel = &TempErr{ID: id}
+		ret = sentinel
 	case ECtxAware:
 		sentinel = errors.New("sentinel " + id)
 		ret = sentinel
@@ -713,11 +726,32 @@ func (x *Exec) build(id int) flyt.Node {
 		if id%2 == 0 {
 			bn = bn.WithBatchErrorHandling(true)
 		}
+		if id%3 == 1 {
+			// the same node through the generic constructor options (plain prep signature) instead of the builder methods
+			bn = flyt.NewBatchNode(
+				flyt.WithPrepFuncAny(func(ctx context.Context, s *flyt.SharedStore) (any, error) {
+					v, err := c.prep(ctx, s)
+					if err != nil {
+						return nil, err
+					}
+					if c.script().FirstOK == 0 {
+						return []any{}, nil
+					}
+					return []any{v, v}, nil
+				}),
+				flyt.WithExecFuncAny(func(ctx context.Context, v any) (any, error) { return c.item(ctx, v) }),
+			).WithPostFunc(func(ctx context.Context, s *flyt.SharedStore, items, results []flyt.Result) (flyt.Action, error) {
+				return c.batchPost(ctx, s, items, results)
+			})
+		}
 		n = bn
 	case KFlow:
 		// placeholder first (cycles through nested flows are not generated)
 		fs := spec.Flow
 		f := flyt.NewFlow(x.build(fs.Start))
+		if fs.Retries > 1 {
+			flyt.WithMaxRetries(fs.Retries)(f.BaseNode)
+		}
 		x.nodes[id] = f
 		for _, cn := range fs.Conns {
 			var to flyt.Node
